@@ -868,7 +868,7 @@ fn node_spec(depth: u32) -> BoxedStrategy<NodeSpec> {
 /// a mapping is a valid configuration (base + range within 2^32, range > 0) and sibling names in
 /// a backend tree are unique.
 pub fn map_ok(m: &Map3) -> bool {
-    m.2 > 0 && m.0 as u64 + m.2 as u64 <= 1 << 32 && m.1 as u64 + m.2 as u64 <= 1 << 32
+    m.0 as u64 + m.2 as u64 <= 1 << 32 && m.1 as u64 + m.2 as u64 <= 1 << 32
 }
 pub fn tree_ok(t: &TreeSpec) -> bool {
     fn uniq(ch: &[NodeSpec]) -> bool {
@@ -878,7 +878,7 @@ pub fn tree_ok(t: &TreeSpec) -> bool {
     uniq(&t.children)
 }
 pub fn in_domain(cs: &Case) -> bool {
-    cs.global.iter().all(map_ok)
+    cs.global.iter().all(|m| map_ok(m) && m.2 > 0)
         && !cs.backends.is_empty()
         && cs.backends.iter().all(tree_ok)
         && cs.ops.iter().all(|o| match o {
@@ -943,8 +943,10 @@ fn rk() -> BoxedStrategy<RK> {
 
 pub fn strategy(idmap: bool) -> BoxedStrategy<Case> {
     let mapopt = if idmap { prop_oneof![1 => Just(None), 2 => map_strategy().prop_map(Some)].boxed() } else { prop_oneof![6 => Just(None), 1 => map_strategy().prop_map(Some)].boxed() };
+    // a per-mount mapping with range 0 is the identity and still overrides the global one (opt-out)
+    let mount_map = prop_oneof![12 => mapopt.clone(), 1 => prop_oneof![Just((1000u32, 2000u32, 0u32)), Just((0u32, 0u32, 0u32))].prop_map(Some)].boxed();
     let op = prop_oneof![
-        4 => (any::<u8>(), 0u8..PATHS.len() as u8, mapopt.clone()).prop_map(|(b, path, map)| Op::Mount { b, path, map }),
+        4 => (any::<u8>(), 0u8..PATHS.len() as u8, mount_map).prop_map(|(b, path, map)| Op::Mount { b, path, map }),
         2 => (0u8..PATHS.len() as u8).prop_map(|path| Op::Umount { path }),
         1 => prop_oneof![3 => 1u16..8, 1 => 200u16..300].prop_map(Op::Burst),
         6 => proptest::collection::vec(0u8..NAMES.len() as u8, 1..5).prop_map(Op::Walk),
